@@ -172,6 +172,47 @@ func ruleL9(p *Prog, r *Report) {
 			}
 			// header refresh: a.childrenHeaders[i] = child.Header()
 			refreshed := func(y ssa.Instruction) bool {
+				// a helper of the same type that refreshes the header of the child it is given, on every path
+				if cc, ok := y.(ssa.CallInstruction); ok {
+					if g := staticCallee(cc); g != nil && recvName(g) == recvName(top) && len(g.Params) > 1 && len(g.Blocks) > 0 {
+						for j := 1; j < len(g.Params) && j < len(cc.Common().Args); j++ {
+							if !sameValue(cc.Common().Args[j], child) {
+								continue
+							}
+							prm := g.Params[j]
+							isRef := func(z ssa.Instruction) bool {
+								st, ok := z.(*ssa.Store)
+								if !ok {
+									return false
+								}
+								ia, ok := st.Addr.(*ssa.IndexAddr)
+								if !ok {
+									return false
+								}
+								fr, ok := asLoadedField(ia.X)
+								if !ok || fr.Field != "childrenHeaders" || !sameValue(fr.Base, g.Params[0]) {
+									return false
+								}
+								hc, ok := canon(st.Val).(*ssa.Call)
+								return ok && calleeName(hc) == "Header" && sameValue(callRecv(hc), prm)
+							}
+							escaped := false
+							reachFrom(g, nil, nil, func(z ssa.Instruction) bool {
+								if isRef(z) {
+									return true
+								}
+								if _, isRet := z.(*ssa.Return); isRet {
+									escaped = true
+									return true
+								}
+								return false
+							})
+							if !escaped {
+								return true
+							}
+						}
+					}
+				}
 				st, ok := y.(*ssa.Store)
 				if !ok {
 					return false
